@@ -91,7 +91,11 @@ class ProcessLine(spawn_context.Process):
         with self._lock:
             if not self._recv.closed:
                 if self._recv.poll():
-                    ex,tb,po = self._recv.recv()
+                    try:
+                        ex,tb,po = self._recv.recv()
+                    except Exception as e:
+                        #the result could not be unpickled (e.g., an exception whose class can't be re-created from its args)
+                        ex,tb,po = e,None,False
                     self._exception = ex
                     self._traceback = tb
                     self._poisoned  = po
